@@ -879,6 +879,8 @@ pub fn analyze_async(sc: &Scenario, info: &PlanInfo, out: &ExecOut) -> Vec<Viol>
                                 let ran = begun[*t] - tl_begun_at_wait[*t];
                                 if ran != 1 {
                                     vs.push(v("C12", "wait-did-not-run-thread-local-once", format!("wait() (call {}) returned after a dispatch but thread-local system {} ran {} times inside it", id, t, ran)));
+                                    // the same fact seen from "every system of a dispatch runs exactly once"
+                                    vs.push(v("C04", "thread-local-not-run-once-per-async-dispatch", format!("dispatch ... wait() (call {}) completed but thread-local system {} ran {} times for it", id, t, ran)));
                                 }
                             }
                         }
@@ -987,13 +989,13 @@ pub fn analyze_async(sc: &Scenario, info: &PlanInfo, out: &ExecOut) -> Vec<Viol>
 
 fn conflict_only_via_tl(info: &PlanInfo, batch: usize, other: usize) -> bool {
     // would the conflict disappear if thread-local systems inside batches declared nothing?
-    fn eff(info: &PlanInfo, id: usize) -> (u8, u8) {
+    fn eff(info: &PlanInfo, id: usize) -> (u64, u64) {
         let n = &info.nodes[id];
         match n.kind {
             Kind::Tl if n.parent.is_some() => (0, 0),
             Kind::Batch => {
-                let mut r = n.reads.iter().fold(0u8, |m, x| m | (1 << x));
-                let mut w = n.writes.iter().fold(0u8, |m, x| m | (1 << x));
+                let mut r = n.reads.iter().fold(0u64, |m, x| m | (1u64 << x));
+                let mut w = n.writes.iter().fold(0u64, |m, x| m | (1u64 << x));
                 for c in &n.children {
                     let (cr, cw) = eff(info, *c);
                     r |= cr;
